@@ -688,7 +688,24 @@ def option_sets(spec):
     return opts
 
 
+def _check_names(spec):
+    names = {f['name'] for f in spec['factors']}
+
+    def walk(x):
+        for c in x.get('constraints', []):
+            for n in ([c['factor']] if 'factor' in c else []) + list(c.get('factors', [])):
+                if n not in names:
+                    raise RefUnsupported('constraint names a factor that is not in the design')
+        for k in ('block', 'outer', 'inner'):
+            if k in x:
+                walk(x[k])
+        for y in x.get('blocks', []):
+            walk(y)
+    walk(spec['block'])
+
+
 def solve(spec, limit=200000):
+    _check_names(spec)
     r = Ref()
     r.readings = []
     r.Ts = []
@@ -720,6 +737,7 @@ class Checker:
     """Membership oracle for single sequences (no enumeration of the valid set): a sequence is accepted iff some reading
     of the documentation accepts it. Used where the valid set is too large to enumerate (soundness-only checks)."""
     def __init__(self, spec):
+        _check_names(spec)
         self.spec = spec
         self.sems = []
         self.refused = None
